@@ -727,6 +727,25 @@ def plan_c18_ops(doc, man, args):
     return acts
 
 
+def plan_c18_typed(doc, man, args):
+    """C18 typed scope: per kind a model T<kind> {N: <kind>, other: integer} that is a JSON value, a JSON body and a
+    multipart body.  args.values = {kind: JSON value for N}."""
+    N = args["N"]
+    acts = []
+    for kind, val in (args.get("values") or {}).items():
+        ent = (man.get("refs") or {}).get(f"/components/schemas/T{kind}")
+        if not ent or ent["kind"] != "ModelProperty" or ent["cls"] not in man["models"]:
+            acts.append({"a": "getattr", "name": "__vf_missing__", "x": {"typed": kind, "what": "missing"}})
+            continue
+        for label, v in (("full", {N: val, "other": 1}), ("absent", {"other": 2})):
+            acts.append({"a": "roundtrip", "cls": ent["cls"], "value": v, "x": {"typed": kind, "what": "roundtrip:" + label, "ref": f"/components/schemas/T{kind}"}})
+        for ep in man["endpoints"]:
+            if ep["path"].rstrip("/").endswith("/" + kind) and ep["bodies"]:
+                acts.append({"a": "call", "module": f"api.{ep['tag']}.{ep['module']}", "variants": ["sync_detailed"], "args": {"body": {"$t": "model", "cls": ent["cls"], "v": {N: val, "other": 1}}}, "client": {},
+                             "response": {"status": 200}, "x": {"typed": kind, "what": "call:" + ep["path"].split("/")[1]}})
+    return acts
+
+
 def _member_value(pi: dict):
     k = pi["kind"]
     if k == "StringProperty":
@@ -814,4 +833,4 @@ def plan_import_info(doc, man, args):
     return acts
 
 
-PLANS = {"import_info": plan_import_info, "c14params": plan_c14params, "c13rand": plan_c13rand, "models": plan_models, "ops": plan_ops, "import": plan_import, "models_given": plan_models_given, "defaults": plan_defaults, "c05": plan_c05, "c14": plan_c14, "c13": plan_c13, "c10": plan_c10, "c15": plan_c15, "c18_ops": plan_c18_ops, "c11": plan_c11}
+PLANS = {"c18_typed": plan_c18_typed, "import_info": plan_import_info, "c14params": plan_c14params, "c13rand": plan_c13rand, "models": plan_models, "ops": plan_ops, "import": plan_import, "models_given": plan_models_given, "defaults": plan_defaults, "c05": plan_c05, "c14": plan_c14, "c13": plan_c13, "c10": plan_c10, "c15": plan_c15, "c18_ops": plan_c18_ops, "c11": plan_c11}
